@@ -123,3 +123,26 @@ def f(*a, **k):
 
 def factory():
     return [0]
+
+
+import datetime as _dt
+
+
+class Period(_dt.timedelta, enum.Enum):
+    """The documented mixin recipe: members are timedeltas."""
+    DAY = 1
+    WEEK = 7
+
+
+class Shift(_dt.time, enum.Enum):
+    MORNING = 6, 30
+    NIGHT = 22, 0
+
+
+class FloatE(float, enum.Enum):
+    HALF = 0.5
+    NEG = -0.0
+
+
+class BytesE(bytes, enum.Enum):
+    MAGIC = b'\x89PNG'
